@@ -393,6 +393,11 @@ static size_t vf_cc_i;
 	 ((ctx)->ks_len == 0 || vf_cc_n >= 1) &&					\
 	 (!(vf_cc_i < CHACHA_BLOCK_LEN && vf_cc_i >= CHACHA_BLOCK_LEN - (ctx)->ks_len) ||	\
 	  VF_CC_KSB(ctx, vf_cc_i) == VF_CC_SER(vf_cc_log[vf_cc_n - 1].x, vf_cc_i)))
+#define VF_CC_INV_AT(ctx, i)	((i) < CHACHA_BLOCK_LEN - (ctx)->ks_len ||					\
+				 VF_CC_KSB(ctx, (i)) == VF_CC_SER(vf_cc_log[vf_cc_n - 1].x, (i)))
+#define VF_CC_INV_REQ8(b)	__CPROVER_requires(ctx->ks_len == 0 || (					\
+	VF_CC_INV_AT(ctx, (b)) && VF_CC_INV_AT(ctx, (b) + 1) && VF_CC_INV_AT(ctx, (b) + 2) && VF_CC_INV_AT(ctx, (b) + 3) && \
+	VF_CC_INV_AT(ctx, (b) + 4) && VF_CC_INV_AT(ctx, (b) + 5) && VF_CC_INV_AT(ctx, (b) + 6) && VF_CC_INV_AT(ctx, (b) + 7)))
 #define VF_CC_LOGJ_OLD(w)	__CPROVER_old(vf_cc_log[vf_cc_j < VF_CC_MAXBLK ? vf_cc_j : 0].x[w])
 #define VF_CC_LOG_KEEP(w)	(vf_cc_log[vf_cc_j].x[w] == VF_CC_LOGJ_OLD(w))
 
@@ -403,7 +408,11 @@ __CPROVER_requires(VF_CC_ROUNDS_OK(ctx->c.rounds))
 __CPROVER_requires(bytes <= VF_CC_MAX_BYTES)
 __CPROVER_requires(bytes == 0 || src == NULL || __CPROVER_r_ok(src, bytes))
 __CPROVER_requires(bytes == 0 || __CPROVER_w_ok(dst, bytes))
-__CPROVER_requires(VF_CC_STR_INV(ctx))
+/* I(ctx) is ASSUMED here, so it is written out for every byte index (a ghost index only
+ * works on the proving side); the ensures side below uses the ghost index vf_cc_i */
+__CPROVER_requires(ctx->ks_len < CHACHA_BLOCK_LEN && vf_cc_n <= VF_CC_MAXBLK && (ctx->ks_len == 0 || vf_cc_n >= 1))
+VF_CC_INV_REQ8(0) VF_CC_INV_REQ8(8) VF_CC_INV_REQ8(16) VF_CC_INV_REQ8(24)
+VF_CC_INV_REQ8(32) VF_CC_INV_REQ8(40) VF_CC_INV_REQ8(48) VF_CC_INV_REQ8(56)
 __CPROVER_requires((VF_CC_POS(vf_cc_n, ctx->ks_len) + bytes + CHACHA_BLOCK_LEN - 1) / CHACHA_BLOCK_LEN <= VF_CC_MAXBLK)
 __CPROVER_assigns(vf_cc_n, __CPROVER_object_whole(vf_cc_log))
 __CPROVER_assigns(bytes != 0: __CPROVER_object_upto(ctx->c.x, CHACHA_BLOCK_LEN), ctx->c.state[12], ctx->c.state[13])
